@@ -10,10 +10,17 @@ from ..engine.srcmodel import AnalysisError, Func
 EXPLANATION = (
     "Path enumeration over the body of the wrapper loop with sensitivity to "
     "its boolean flag, plus shape rules on the lexer, the fit test, the pad "
-    "functions and the per-line use in both generators. Decides: the default "
-    "tokeniser is a character-level splitter with a quote state (a blank "
-    "inside a quoted string never ends a token wherever the string starts; "
-    "no comment characters; unterminated quotes raise) and is not shlex "
+    "functions and the per-line use in both generators. The default tokeniser's "
+    "character loop is interpreted abstractly (one representative per class "
+    "of character: either quote, the escape character, blank, tab, every "
+    "other literal the source names, anything else; the quote-state locals "
+    "are constants) into a finite automaton, and its product with the "
+    "language's own inside-a-literal automaton is searched exhaustively. "
+    "Decides: no reachable step ends or discards a token inside a string "
+    "literal, wherever the string starts; every character is kept exactly "
+    "once (blanks outside literals may go); an open literal at the end of the "
+    "line is refused, a complete line is accepted with its last token; a "
+    "blank after a token outside literals ends it; the tokeniser is not shlex "
     "based; on every feasible path through the loop body each "
     "word is concatenated exactly once, after a single-space separator when "
     "the line is not at its start and after the continuation indentation "
@@ -39,7 +46,7 @@ def _check_main(run, P):
     run.rule("C20.lexer", "default tokeniser splits at whitespace outside quoted "
              "strings only, wherever the string starts, and interprets no comment "
              "characters; the Python wrapper's lexer honours backslash escapes, the "
-             "Fortran wrapper's has none", minimum=3)
+             "Fortran wrapper's has none", minimum=4)
     run.rule("C20.once", "each word is concatenated exactly once on every feasible "
              "path of the loop body, with separator / continuation indentation",
              minimum=3)
@@ -92,11 +99,23 @@ def _lexer(run, P, f: Func):
         return
     if target is None:
         raise AnalysisError(f"wrap_line_base: default lexer {desc} not resolved")
-    ok, why = _quote_machine(target)
-    run.ob("C20.lexer", target, target.node, ok,
-           construct=f"default lexer {target.name}: {why}",
-           why="a blank inside a quoted string must never end a token, wherever the "
-               "string starts; nothing but whitespace outside quotes separates tokens")
+    from .c20_lexer import Lexer, explore
+    lx = Lexer(target)
+    esc_name = [a.arg for a, d in zip(reversed(target.node.args.args),
+                                      reversed(target.node.args.defaults))
+                if a.arg != target.params[0]]
+    if len(esc_name) != 1:
+        raise AnalysisError(f"{target.name}: escape-character parameter not found")
+    for esc_char, label in (("\\", "with a backslash escape"), (None, "without an escape character")):
+        found, n_states, n_steps = explore(lx, esc_name[0], esc_char)
+        msg = "; ".join(f"{k} (input {w!r})" for k, w in sorted(found.items()))
+        run.ob("C20.lexer", target, target.node, not found,
+               construct=f"default lexer {target.name} {label}: "
+                         + (msg or f"{n_states} product states, {n_steps} steps explored"),
+               why="a blank inside a quoted string must never end a token, wherever the "
+                   "string starts; nothing but whitespace outside quotes separates tokens; "
+                   "every character is kept once; an open literal at the end of the line "
+                   "is refused")
     # which escape character each wrapper's lexer ends up with
     esc_param = None
     for a, d in zip(reversed(target.node.args.args), reversed(target.node.args.defaults)):
@@ -141,65 +160,6 @@ def _lexer(run, P, f: Func):
                    "blank, and the continuation lands inside the constant. Fortran "
                    "has no escape character (a quote is doubled), so a backslash "
                    "before a closing quote must not keep the string open")
-
-
-def _quote_machine(t: Func):
-    """Shape of a character-level splitter with a quote state."""
-    loops = [n for n in ast.walk(t.node) if isinstance(n, ast.For)]
-    if not loops:
-        # another way of writing the splitter (index arithmetic, str.find, a regular
-        # expression) is not understood - that is exit 2, not a finding
-        raise AnalysisError(f"{t.qualname}: no character loop; splitter idiom not recognised")
-    lp = loops[0]
-    ch = lp.target.id if isinstance(lp.target, ast.Name) else None
-    top = [s for s in lp.body if isinstance(s, ast.If)]
-    if not top or ch is None:
-        raise AnalysisError(f"{t.qualname}: no state dispatch on the character; splitter idiom "
-                            f"not recognised")
-    node = top[0]
-    chain = []
-    while isinstance(node, ast.If):
-        chain.append(node)
-        nxt = node.orelse
-        node = nxt[0] if len(nxt) == 1 and isinstance(nxt[0], ast.If) else None
-    tests = [norm(c.test) for c in chain]
-    # first branch: inside a quote
-    qvar = None
-    first = chain[0].test
-    if isinstance(first, ast.Compare) and isinstance(first.ops[0], ast.IsNot) \
-            and isinstance(first.comparators[0], ast.Constant) \
-            and first.comparators[0].value is None and isinstance(first.left, ast.Name):
-        qvar = first.left.id
-    if qvar is None:
-        raise AnalysisError(f"{t.qualname}: first branch is not the in-quote state ({tests[:1]}); "
-                            f"splitter idiom not recognised")
-    inq = ast.unparse(chain[0])
-    closes = f"{ch} == {qvar}" in inq and f"{qvar} = None" in inq
-    no_split_in_quote = "isspace" not in "\n".join(ast.unparse(s) for s in chain[0].body)
-    opens = any(f"{qvar} = {ch}" in ast.unparse(c) and " in " in norm(c.test) for c in chain[1:])
-    splits = [c for c in chain[1:] if "isspace()" in norm(c.test)]
-    unterminated = any(isinstance(n, ast.If) and norm(n.test) == f"{qvar} is not None"
-                       and leaves_with(n.body, ast.Raise) for n in t.node.body)
-    comment = any(isinstance(x, ast.Constant) and x.value == "#" for x in ast.walk(t.node))
-    params = {a.arg for a in t.node.args.args}
-    esc = False
-    for n in ast.walk(chain[0]):
-        if isinstance(n, ast.If) and isinstance(n.test, ast.Compare) and len(n.test.ops) == 1 \
-                and isinstance(n.test.ops[0], ast.Eq) and dotted(n.test.left) == ch \
-                and isinstance(n.test.comparators[0], ast.Name) and n.test.comparators[0].id in params:
-            # the escape test takes precedence over the closing-quote test
-            later = "\n".join(ast.unparse(s_) for s_ in n.orelse)
-            consumes = any(isinstance(x, ast.Call) and dotted(x.func) == "next"
-                           for s_ in n.body for x in ast.walk(s_))
-            esc = consumes and f"{ch} == {qvar}" in later and f"{ch} == {qvar}" not in \
-                "\n".join(ast.unparse(s_) for s_ in n.body)
-    ok = closes and no_split_in_quote and opens and len(splits) == 1 and unterminated \
-        and not comment and esc
-    return ok, (f"quote state '{qvar}': closes on the same quote={closes}, no split inside "
-                f"quotes={no_split_in_quote}, opens anywhere={opens}, splits on whitespace "
-                f"outside quotes={len(splits) == 1}, unterminated raises={unterminated}, "
-                f"no comment handling={not comment}, escaped character consumed before "
-                f"the closing-quote test={esc}")
 
 
 class _PathState:
